@@ -188,3 +188,95 @@ def stale_cache(ctx, rule, classes, why, min_methods=10):
     if n < min_methods:
         raise AnalysisError(f'{rule}: only {n} public methods analysed')
     return res
+
+
+# --------------------------------------------------------------------------
+# ARG-WIRING: what the public editing API is given reaches the constructor
+# parameter of the same meaning.  The expected maps were read off the current
+# source and confirmed against the callee signatures by hand; the analysis
+# recomputes the actual map from the resolved call on every run.
+
+def call_wiring(P, f):
+    """[(call node, callee, {source text or 'kw:<key>': callee parameter})]"""
+    env = P.local_env(f)
+    kw = {}
+    for st in ast.walk(f.node):
+        if isinstance(st, ast.Assign) and isinstance(st.value, ast.Call) and \
+                unparse(st.value.func) == 'kwargs.get' and \
+                isinstance(st.targets[0], ast.Name) and st.value.args and \
+                isinstance(st.value.args[0], ast.Constant):
+            kw[st.targets[0].id] = (
+                'kw:' + str(st.value.args[0].value),
+                unparse(st.value.args[1]) if len(st.value.args) > 1 else 'None')
+    out = []
+    for c in ast.walk(f.node):
+        if not isinstance(c, ast.Call):
+            continue
+        for g in P.resolve_call(c, env, f) or []:
+            params = g.params
+            m = {}
+            for i, a in enumerate(c.args):
+                if isinstance(a, ast.Starred):
+                    m['*' + unparse(a.value)] = '*'
+                    continue
+                s = unparse(a)
+                s = kw[s][0] if s in kw else s
+                m[s] = params[i] if i < len(params) else '?'
+            for k in c.keywords:
+                if k.arg is None:
+                    m['**' + unparse(k.value)] = '**'
+                    continue
+                s = unparse(k.value)
+                s = kw[s][0] if s in kw else s
+                m[s] = k.arg if (k.arg in params or g.node.args.kwarg) \
+                    else '?' + k.arg
+            out.append((c, g, m))
+    return out, kw
+
+
+def arg_wiring(ctx, rule, sites, defaults=()):
+    P = ctx.P
+    res = Result(rule, 'every value given to the editing API reaches the '
+                 'constructor / callee parameter of the same meaning '
+                 '(argument order and keyword names), with the documented '
+                 'defaults')
+    cache = {}
+    for caller, callee, expected in sites:
+        f = P.func(caller)
+        res.saw(f)
+        if caller not in cache:
+            cache[caller] = call_wiring(P, f)
+        calls, kw = cache[caller]
+        hits = [(c, g, m) for c, g, m in calls if g.qual == callee]
+        if not hits:
+            res.fail(ctx.finding(
+                rule, f, f.node, f'{caller} no longer calls {callee}',
+                construct=f'{caller} -> {callee}: call missing'))
+            continue
+        for c, g, m in hits:
+            if m == expected:
+                res.ok(f'{caller} -> {callee}: ' + ', '.join(
+                    f'{a}->{b}' for a, b in sorted(m.items())))
+            else:
+                diff = {a: (expected.get(a), m.get(a)) for a in
+                        set(expected) | set(m) if expected.get(a) != m.get(a)}
+                res.fail(ctx.finding(
+                    rule, f, c,
+                    f'{caller} -> {callee}: argument wiring changed: ' +
+                    '; '.join(f'{a}: expected parameter {e}, now {n}'
+                              for a, (e, n) in sorted(diff.items())),
+                    construct=f'{caller} -> {callee}: wiring'))
+    for caller, key, dflt in defaults:
+        f = P.func(caller)
+        if caller not in cache:
+            cache[caller] = call_wiring(P, f)
+        kw = cache[caller][1]
+        got = [d for (k, d) in kw.values() if k == 'kw:' + key]
+        if got and all(g_ == dflt for g_ in got):
+            res.ok(f'{caller}: default {key} = {dflt}')
+        else:
+            res.fail(ctx.finding(
+                rule, f, f.node,
+                f'{caller}: default of {key!r} is {got or "missing"}, '
+                f'documented {dflt}', construct=f'{caller}: default {key}'))
+    return res
